@@ -7,6 +7,7 @@ sys.path.insert(0, os.path.join(HERE, "..", "lib"))
 sys.path.insert(0, os.path.join(HERE, "..", "gen"))
 from vcheck import *
 from c01run import *
+from c01peer import gen_peer, judge_lines
 
 P = "Cppcms.C01.Props."
 OBLIGATIONS = [
@@ -67,6 +68,14 @@ def gen_cases(c, scale):
     for uri in (b"/sing/x", b"/s.html", b"/ax", b"/a-v2/index", b"/f%2Fx", b"/ss/s", b"/s_"):
         dec = uri.replace(b"%2F", b"/")
         fixed(b"GET", b"", dec, uri, [], [])
+    # requests in peer form (the structures the round-trip theorems quantify over): judged by the Lean driver against the
+    # theorems' right-hand sides (J peer / J form / J cookies)
+    for i in range(60 * scale):
+        q = gen_peer(rng)
+        for segs in segmentations(rng, q.wire, 2):
+            x = Case("http", "hc", segs, tag="wf-peer")
+            x.peer = q
+            cases.append(x)
     # 30..150 variables (string_map growth) on all three front-ends; the echo reports the map and by-name lookups
     for i in range(10 * scale):
         r = gen_absreq(rng, manyvars=True)
@@ -178,6 +187,14 @@ def main():
                     continue
                 if x.nreq is not None and f" ready={x.nreq} " not in x.impl + " ":
                     res.append((x, f"keep-alive connection: {x.nreq} well-formed requests were sent, the applications ran {x.impl.split('ready=')[1].split()[0]} times"))
+                if x.peer is not None:
+                    o = x.impl.split(" | ")[0]
+                    if not o.startswith("app ") or " ; " in o:
+                        res.append((x, "well-formed request (peer form) was not delivered to the application"))
+                    else:
+                        kv = dict(w.split("=", 1) for w in o.split()[1:])
+                        for l in judge_lines(x.peer, x.hp or hp, kv):
+                            jl.append(l); jx.append(x)
                 if x.absreq is not None:
                     l = view_judge_line(x)
                     if l is None:
@@ -187,7 +204,10 @@ def main():
             rc, jout, jerr = c.run_lines(model, jl, timeout=3000) if jl else (0, [], "")
             for x, o in zip(jx, jout):
                 if o != "1":
-                    res.append((x, "application did not observe the request the peer encoded (Spec.viewOk false)"))
+                    if x.peer is not None:
+                        res.append((x, "peer-form request: hypotheses / encoder / right-hand side of the round-trip theorems do not match the real server: " + o))
+                    else:
+                        res.append((x, "application did not observe the request the peer encoded (Spec.viewOk false)"))
             if len(jout) != len(jl):
                 c.broke("judge", f"model driver answered {len(jout)} of {len(jl)} judge lines: {jerr[-800:]}")
             njudged[0] += len(jl)
